@@ -47,3 +47,67 @@ package migrator
 //@ ensures[C37:non-empty-destination-refused] len(result_of(storage.ListAllObjectsOfBucket, 0)) != 0 && result_of(storage.ListAllObjectsOfBucket, 1) == nil ==> err == ErrDestinationNotEmpty
 //@ effect[C37:nothing-written-into-non-empty-destination] every migrateSingleObject(__)
 //@     needs before storage.ListAllObjectsOfBucket(_, $d, $b) -> ($objs, $e) where $d == destination && $b == bucketName && $e == nil && len($objs) == 0
+
+// What is handed to the uploader is the source object: same bucket and key, the content type, every metadata field,
+// the tag set and the storage class that source.GetObject / GetObjectTagging reported.
+//@ func migrateSingleObject
+//@ property C37
+//@ mode effects
+//@ effect[C37:upload-names-the-object] every uploader.Upload(_, $in, __)
+//@     where $in != nil && $in.Bucket != nil && *$in.Bucket == bucketName.String() && $in.Key != nil && *$in.Key == sourceObject.Key.String()
+//@ effect[C37:upload-carries-metadata] every uploader.Upload(_, $in, __)
+//@     needs before source.GetObject(_, $b, $k, _, _) -> ($src, _, $e)
+//@     where $e == nil && $b == bucketName && $k == sourceObject.Key && $src != nil && $in != nil &&
+//@         $in.ContentType == $src.ContentType &&
+//@         $in.CacheControl == $src.Metadata.CacheControl && $in.ContentDisposition == $src.Metadata.ContentDisposition &&
+//@         $in.ContentEncoding == $src.Metadata.ContentEncoding && $in.ContentLanguage == $src.Metadata.ContentLanguage &&
+//@         $in.WebsiteRedirectLocation == $src.Metadata.WebsiteRedirectLocation
+//@ effect[C37:upload-carries-storage-class] every uploader.Upload(_, $in, __)
+//@     needs before source.GetObject(_, _, _, _, _) -> ($src, _, $e)
+//@     where $e == nil && $src != nil && $in != nil &&
+//@         (($src.StorageClass == nil && string($in.StorageClass) == "") || ($src.StorageClass != nil && string($in.StorageClass) == *$src.StorageClass))
+//@ effect[C37:upload-carries-tags] every uploader.Upload(_, $in, __)
+//@     needs before source.GetObjectTagging(_, $b, $k, _) -> ($tags, $e) needs before encodeTaggingHeader($t) -> ($h)
+//@     where $b == bucketName && $k == sourceObject.Key && $in != nil && ($e == nil ==> same($t, $tags) && $in.Tagging == $h)
+
+// The adapter the uploader writes through: what reaches the destination storage is what the SDK input carried.
+//@ func objectMetadataFromSDKInput
+//@ property C37
+//@ ensures[C37:sdk-metadata-nil-iff-empty] (result == nil) == (cacheControl == nil && contentDisposition == nil && contentEncoding == nil && contentLanguage == nil &&
+//@     expires == nil && websiteRedirectLocation == nil && len(userMetadata) == 0)
+//@ ensures[C37:sdk-metadata-fields] result != nil ==> result.CacheControl == cacheControl && result.ContentDisposition == contentDisposition &&
+//@     result.ContentEncoding == contentEncoding && result.ContentLanguage == contentLanguage &&
+//@     result.WebsiteRedirectLocation == websiteRedirectLocation && same(result.UserMetadata, userMetadata) && ((result.Expires == nil) == (expires == nil))
+
+//@ func storageClassFromSDKInput
+//@ property C37
+//@ ensures[C37:sdk-storage-class] (result == nil) == (string(storageClass) == "") && (result != nil ==> *result == string(storageClass))
+
+//@ methods a *StorageToS3UploadAPIClientAdapter in PutObject CreateMultipartUpload
+//@ mode effects
+//@ requires input != nil && input.Bucket != nil && input.Key != nil
+//@ effect[C37:adapter-names-the-object] every a.storage.$M(_, storage.BucketName($b), storage.ObjectKey($k), __) where $b.String() == *input.Bucket && $k.String() == *input.Key
+
+//@ func (*StorageToS3UploadAPIClientAdapter).PutObject
+//@ mode effects
+//@ requires input != nil && input.Bucket != nil && input.Key != nil
+//@ effect[C37:adapter-put-carries-fields] every a.storage.PutObject(_, _, _, $ct, $body, _, $o)
+//@     needs before decodeTaggingHeader($h) -> ($tags, $te)
+//@     needs before objectMetadataFromSDKInput($cc, $cd, $ce, $cl, $ex, $wr, $um) -> ($m)
+//@     where $ct == input.ContentType && $body == input.Body && $h == input.Tagging &&
+//@         $cc == input.CacheControl && $cd == input.ContentDisposition && $ce == input.ContentEncoding && $cl == input.ContentLanguage &&
+//@         $ex == input.Expires && $wr == input.WebsiteRedirectLocation && same($um, input.Metadata) &&
+//@         (len($tags) > 0 ==> $o != nil && same($o.Tags, $tags)) && ($m != nil ==> $o != nil && $o.Metadata == $m) &&
+//@         (string(input.StorageClass) != "" ==> $o != nil && $o.StorageClass != nil && *$o.StorageClass == string(input.StorageClass))
+
+//@ func (*StorageToS3UploadAPIClientAdapter).CreateMultipartUpload
+//@ mode effects
+//@ requires input != nil && input.Bucket != nil && input.Key != nil
+//@ effect[C37:adapter-multipart-carries-fields] every a.storage.CreateMultipartUpload(_, _, _, $ct, _, $o)
+//@     needs before decodeTaggingHeader($h) -> ($tags, $te)
+//@     needs before objectMetadataFromSDKInput($cc, $cd, $ce, $cl, $ex, $wr, $um) -> ($m)
+//@     where $ct == input.ContentType && $h == input.Tagging &&
+//@         $cc == input.CacheControl && $cd == input.ContentDisposition && $ce == input.ContentEncoding && $cl == input.ContentLanguage &&
+//@         $ex == input.Expires && $wr == input.WebsiteRedirectLocation && same($um, input.Metadata) &&
+//@         (len($tags) > 0 ==> $o != nil && same($o.Tags, $tags)) && ($m != nil ==> $o != nil && $o.Metadata == $m) &&
+//@         (string(input.StorageClass) != "" ==> $o != nil && $o.StorageClass != nil && *$o.StorageClass == string(input.StorageClass))
